@@ -25,7 +25,7 @@ SPECDIR = SPECS / "tb"
 PATHS = {1: "/srv/app/mod.py", 2: "/srv/my app/é dir/mod 2.py", 3: "<string>", 4: "<frozen importlib._bootstrap>"}
 FUNCS = {1: "<module>", 2: "handler", 3: "<lambda>"}
 TYPES = {1: "ValueError", 2: "pkg.mod.CustomError"}
-MSGL = {1: "something failed", 2: "bad value: 42: really", 3: "second line", 4: "", 5: "ünïcode ✓"}
+MSGL = {1: "something failed", 2: "bad value: 42: really", 3: "second line", 4: "", 5: "ünïcode ✓", 6: "    ^ expected an expression", 7: "^^^ here"}
 SRC = "result = compute(a, b)  # comment"
 MARK = "    ~~~~~~~^^^^^^"
 
